@@ -32,6 +32,8 @@ def main():
                 print("   " + "\n   ".join(r.stdout.splitlines()[-6:]))
     finally:
         subprocess.run(["git", "-C", "/repo", "checkout", "--", "."])
+        # never leave binaries of the changed tree behind
+        subprocess.run([os.path.join(ROOT, "vcheck"), "build", "debug", "release"], cwd=ROOT, stdout=subprocess.DEVNULL)
     print(json.dumps(res))
     return 0
 
